@@ -629,6 +629,7 @@ def run_live(ctx):
 
 
 def check(ctx):
+    K2._honour_scale(ctx)
     pts = gen_points(ctx, ctx.budget(1200, 30000))
     for h in getattr(ctx, "hints", []) or []:
         inp = h.get("input")
